@@ -123,7 +123,8 @@ def noMinus (q : List Tok) : Bool := !(q.any (fun t => t.kind == .minus))
 def rangeCore (ts : List Tok) : Bool := quantAll noMinus ts
 
 /-- ADVANCED_UNITS: every quantity is one the advanced-units parser declines (`advNone`: it contains
-    a `%`, or the tokens before the first word do not end in whitespace) -/
+    a `%`, or the tokens before the first word do not end in whitespace, block comments at their end not
+    counted — the test of the code after the repair of defect F-C17-1) -/
 def advCore (ts : List Tok) : Bool := quantAll advNone ts
 
 /-- `p kind rest` holds for every marker token of the block and the tokens after it -/
